@@ -497,6 +497,7 @@ func c18Run(w *run.Worker) {
 		c02TreeRun(w, d, 3, 5)
 	}
 	c02Again(w, d)
+	c04SliceAgain(w, d)
 	c04Paths(w, d)
 	c04Alias(w, d)
 	c04Reeval(w, d)
